@@ -13,15 +13,6 @@ open Cppcms
 def CR : UInt8 := 13
 def LF : UInt8 := 10
 
-/-- pseudo-random payload of the write scripts (`gen_bytes` in harness/c03.cpp): a 31-bit LCG -/
-def genBytesAux : Nat → Nat → List UInt8 → List UInt8
-  | 0, _, acc => acc.reverse
-  | n + 1, x, acc =>
-    let x' := (x * 1103515245 + 12345) % 2147483648
-    genBytesAux n x' (UInt8.ofNat (x' / 65536 % 256) :: acc)
-
-def genBytes (seed n : Nat) : Bytes := genBytesAux n (seed % 2147483648) []
-
 /-! ## generic helpers -/
 
 def hexVal (c : UInt8) : Option Nat :=
